@@ -253,6 +253,23 @@ class Engine:
             outcome, value = 'return', r.value
         except PyRaise as r:
             outcome, value = 'raise', r.name
+        if outcome == 'return' and c.sequel is not None:
+            seq_src = Source.get(self.repo, c.sequel['file'] if 'file' in c.sequel else c.file)
+            fn2 = seq_src.find(c.sequel['qual'])
+            self.env = c.sequel['env'](self, self.env, value)
+            saved_fn, saved_src = self.fn, self.src
+            self.fn, self.src = fn2, seq_src
+            try:
+                self.exec_block(fn2.body)
+                outcome, value = 'return', None
+            except _Return as r:
+                outcome, value = 'return', r.value
+            except PyRaise as r:
+                outcome, value = 'raise', r.name
+            finally:
+                self.fn, self.src = saved_fn, saved_src
+            self.env = dict(self.env)
+            self.env.update({k: v for k, v in c.sequel.get('keep', {}).items()})
         if outcome == 'return' and isinstance(value, PyList) and 'result' in c.lists:
             al = ArrList('result', c.lists['result'], length=z3.IntVal(0))
             for it in value.items:
@@ -1064,6 +1081,15 @@ class Engine:
                 return pymod(us, z3.IntVal(10**6))
             if attr == 'replace':
                 return BoundMethod(base, attr)
+        if isinstance(base, Opaque) and base.what.startswith('class:'):
+            cls = self.src.find_class(base.what[6:])
+            if cls is not None:
+                for st in cls.body:
+                    if isinstance(st, ast.Assign) and len(st.targets) == 1 and isinstance(st.targets[0], ast.Name) \
+                            and st.targets[0].id == attr and isinstance(st.value, ast.Constant):
+                        return st.value.value
+                if self.find_contract(base.what[6:], attr) is not None:
+                    return BoundMethod(base, attr)
         if hasattr(base, 'getattr'):
             return base.getattr(self, attr)
         if base is None:
@@ -1370,6 +1396,15 @@ class Engine:
         if isinstance(op, ast.BitAnd) and isinstance(b, int) and b >= 0 and (b & (b + 1)) == 0 and not real:
             # x & (2^k - 1) == x mod 2^k (also for negative x in Python)
             return pymod(za, z3.IntVal(b + 1))
+        if isinstance(op, (ast.BitAnd, ast.BitOr)) and (isinstance(b, int) or isinstance(a, int)) and not real:
+            x, c = (za, b) if isinstance(b, int) else (zb, a)
+            if isinstance(c, int) and c >= 0 and bin(c).count('1') <= 12:
+                self.oblige('safety', 'bitop.nonneg:' + txt, x >= 0)
+                bits = [k for k in range(c.bit_length()) if c >> k & 1]
+                bit = lambda k: pymod(floordiv(x, z3.IntVal(2 ** k)), z3.IntVal(2))
+                if isinstance(op, ast.BitAnd):
+                    return z3.Sum([bit(k) * (2 ** k) for k in bits]) if bits else z3.IntVal(0)
+                return x + z3.Sum([(1 - bit(k)) * (2 ** k) for k in bits]) if bits else x
         if isinstance(op, ast.Pow) and isinstance(b, int) and 0 <= b <= 4:
             r = z3.IntVal(1)
             for _ in range(b):
@@ -1604,6 +1639,9 @@ class Engine:
                     return hook(self, e, [recv] + args, kwargs)
                 raise Unsupported(f'{self.c.qual}: no contract for {recv.cls}.{name}')
             return self.call_contract_or_inline(cc, recv, args, kwargs)
+        if name == 'bit_length' and (isinstance(recv, int) or (z3.is_expr(recv) and recv.sort() == INT)) and not args:
+            from .models.trace import BitLen
+            return recv.bit_length() if isinstance(recv, int) else BitLen(recv)
         if isinstance(recv, TD) and name == 'total_seconds':
             return Ratio(recv.us, 1000000)
         if isinstance(recv, DT) and name == 'replace':
@@ -1992,6 +2030,10 @@ class Engine:
             if ftxt == 'SHA256.new':
                 return bm.ShaModel()
             return bm.AesModel(args[0])
+        if ftxt in ('struct.pack', 'struct.unpack'):
+            from .models import trace as tr
+            args, kw = self.args(e)
+            return tr.struct_pack(self, e, args) if ftxt == 'struct.pack' else tr.struct_unpack(self, e, args)
         if ftxt == 'time.time':
             return fresh('time', REAL)
         if ftxt == 'io.BytesIO' and not e.args:
